@@ -2,7 +2,7 @@
    representation.  Only statements; every proof is `exact <lemma>` (Proofs/C02Proofs.v).
    The functions td_*/dt_*/tv_* are regenerated from /repo/src/nitypes/bintime on every run. *)
 From Coq Require Import ZArith List.
-From NV Require Import Common.Py Common.Trans Spec.TimeSpec Gen.BintimeGen Model.Cvi Proofs.C02Proofs Model.PickleInt Proofs.C02Pickle.
+From NV Require Import Common.Py Common.Trans Spec.TimeSpec Gen.BintimeGen Model.Cvi Proofs.C02Proofs Proofs.C02Order Model.PickleInt Proofs.C02Pickle.
 Open Scope Z_scope.
 
 (* whole_seconds = floor(ticks / 2^64), fractional_seconds = ticks mod 2^64, for EVERY integer *)
@@ -58,6 +58,20 @@ Print Assumptions C02_ticks_tuple_ticks.
 Theorem C02_tuple_ticks_tuple : forall w f t, td_from_tuple w f = Ok t -> td_to_tuple t = (w, f).
 Proof. exact to_from_tuple. Qed.
 Print Assumptions C02_tuple_ticks_tuple.
+
+(* the tuple carries the value without loss and in order (Proofs/C02Order.v): to_tuple is injective and
+   the lexicographic order of (whole, fraction) tuples is the order of ticks, in both directions *)
+Theorem C02_to_tuple_injective : forall t u, td_to_tuple t = td_to_tuple u -> t = u.
+Proof. exact to_tuple_injective. Qed.
+Print Assumptions C02_to_tuple_injective.
+Theorem C02_to_tuple_order : forall t u, tuple_ltb (td_to_tuple t) (td_to_tuple u) = (t <? u).
+Proof. exact to_tuple_order. Qed.
+Print Assumptions C02_to_tuple_order.
+Theorem C02_from_tuple_order : forall w1 f1 w2 f2 t1 t2,
+  td_from_tuple w1 f1 = Ok t1 -> td_from_tuple w2 f2 = Ok t2 ->
+  (t1 <? t2) = tuple_ltb (w1, f1) (w2, f2).
+Proof. exact from_tuple_order. Qed.
+Print Assumptions C02_from_tuple_order.
 
 (* the 16-byte record: fraction (uint64, little endian) at offset 0, seconds (int64) at offset 8 *)
 Theorem C02_cvi_layout : forall t,
